@@ -163,7 +163,7 @@ def r11_2(rep, M, rid, obj, br):
     one_false = len(stores) == 1 and isinstance(stores[0].value, ast.Constant) and stores[0].value.value is False
     idx = norm(stores[0].targets[0].slice) if stores else None
     # the index comes from the loop over the transformation matrix
-    loop = [lp for lp in ast.walk(br) if isinstance(lp, ast.For) and "transformation_matrix" in norm(lp.iter)
+    loop = [lp for lp in ast.walk(br) if isinstance(lp, ast.For)
             and any(isinstance(s, ast.Assign) and norm(s.targets[0]) == idx for s in ast.walk(lp))]
     # spglib convention: x_std = P x_orig + p, so ROWS of dataset.transformation_matrix belong to the standardised axes and
     # COLUMNS to the original ones. The standardised axis i is the image of the original non-periodic axis k iff row i has its
@@ -176,11 +176,21 @@ def r11_2(rep, M, rid, obj, br):
         arg = it.args[0] if isinstance(it, ast.Call) and isinstance(it.func, ast.Name) and it.func.id == "enumerate" and it.args else it
         from .. import linalg
         from ..symrules import resolver
-        f = linalg.nf(arg, resolver(M, FQ), {})
+        env1 = {}
+        cnt1 = {}
+        for s2 in ast.walk(fn):
+            if isinstance(s2, ast.Assign) and isinstance(s2.targets[0], ast.Name):
+                env1.setdefault(s2.targets[0].id, s2.value)
+                cnt1[s2.targets[0].id] = cnt1.get(s2.targets[0].id, 0) + 1
+        f = linalg.nf(arg, resolver(M, FQ), {k: v for k, v in env1.items() if cnt1[k] == 1})
         tv = [x.id for x in ast.walk(lp.target) if isinstance(x, ast.Name)]
         rowvar = tv[-1] if tv else None
-        uses_orig = any(isinstance(x, ast.Subscript) and isinstance(x.value, ast.Name) and x.value.id == rowvar and "i_pbc" in norm(x.slice)
-                        for x in ast.walk(lp))
+        # the original non-periodic axis: a local defined from the positions where the original pbc is False (np.argwhere(pbc == False)[0] ...)
+        orig_axis = {norm(s2.targets[0]) for s2 in ast.walk(fn) if isinstance(s2, ast.Assign) and isinstance(s2.targets[0], ast.Name)
+                     and any(isinstance(c, ast.Call) and (M.ext_name(FQ, c.func) or "") in ("numpy.argwhere", "numpy.where", "numpy.nonzero", "numpy.flatnonzero", "numpy.argmin")
+                             for c in ast.walk(s2.value)) and "pbc" in norm(s2.value)}
+        uses_orig = any(isinstance(x, ast.Subscript) and isinstance(x.value, ast.Name) and x.value.id == rowvar
+                        and any(isinstance(y, ast.Name) and y.id in orig_axis for y in ast.walk(x.slice)) for x in ast.walk(lp))
         if f is not None and len(f) == 1 and f[0][0].endswith("transformation_matrix") and uses_orig:
             conv_ok = not f[0][2] and not f[0][1]
     if conv_ok is True:
